@@ -52,7 +52,7 @@ def same_struct(a, b):
 
 def close_c(a, b, rel=1e-12):
     a, b = complex(a), complex(b)
-    return abs(a - b) <= rel * max(1.0, abs(a), abs(b))
+    return abs(a - b) <= rel * max(abs(a), abs(b)) + 1e-300        # purely relative: small magnitudes count
 
 
 def elem_close(e1, e2):
@@ -64,7 +64,7 @@ def elem_close(e1, e2):
 
 def loader_kinds():
     from CircuitCalculator.Network import elements as elm
-    z1, z2 = 3 + 4j, 0.5 - 0.25j
+    z1, z2 = 3 + 4j, 4.7e-7 - 2.5e-8j          # one ordinary and one small value (a capacitive admittance)
     return {
         'resistor': (lambda n: {'R': 10.0}, lambda v, name: elm.resistor(name, 10.0), []),
         'conductor': (lambda n: {'G': 0.25}, lambda v, name: elm.conductor(name, 0.25), []),
@@ -128,7 +128,7 @@ def network_loader(ctx, rng, quick):
     # to_complex
     for _ in range(30 if quick else 600):
         ctx.evaluations += 1
-        z = complex(rng.choice([1, -2, 0.5, 3e-7, 1e6, 12]) * rng.choice([1, -1]), rng.choice([0, 33, -0.25, 4e-7, 2e5]))
+        z = complex(rng.choice([1, -2, 0.5, 3e-7, 1e6, 12, 2e-13, 4.7e-9]) * rng.choice([1, -1]), rng.choice([0, 33, -0.25, 4e-7, 2e5, 1e-12]))
         r, ph = abs(z), cmath.phase(z)
         cart = {'real': z.real, 'imag': z.imag}
         pol = {'abs': r, 'phase': ph}
